@@ -7,7 +7,17 @@
 //! from its OWN exact re-derivation (i128 rationals, written independently, in the loop structure
 //! of the Rust code), so that the two verdict lines must agree.
 //!
-//! Implementation-side oracle (independent of both): exact vertex enumeration.
+//! Implementation-side oracle (independent of both): exact vertex enumeration.  `Optimal` must
+//! satisfy every row and bound within the configured ABSOLUTE feasibility tolerance; its objective
+//! may exceed the optimum only up to the optimum of the LP relaxed by that tolerance, and may fall
+//! short of it by at most optimality_tol * (sum of the standard-form variables at an optimal
+//! vertex) — the bound of theorem `C09_legal_optimal_tol`; the terminal state must be legal.
+//!
+//! Random streams (`stream:*` counters): `default` (small well-scaled data, default config),
+//! `scaled` (a well-scaled LP under row / column scalings by powers of two and 10, 1000: magnitudes
+//! up to ~2^48 apart inside one row / column, default config), `config` (feasibility_tol and
+//! optimality_tol drawn independently from {1e-9, 1e-6, 1e-4, 1e-2}, binding rows / objective with
+//! coefficients between the two tolerances, upper bounds of 1000), plus 10 % malformed problems.
 use crate::out::{b, guarded, Out};
 use crate::rng::Rng;
 use selen::lpsolver::{self, LpConfig, LpError, LpProblem, LpSolution, LpStatus};
@@ -52,16 +62,22 @@ impl Q {
         Q::int(0)
     }
     fn add(self, o: Q) -> Q {
-        Q::new(self.n * o.d + o.n * self.d, self.d * o.d)
+        // over the least common denominator, so that large common powers of two do not pile up
+        let g = gcd(self.d, o.d);
+        let (da, db) = (self.d / g, o.d / g);
+        Q::new(self.n * db + o.n * da, self.d * db)
     }
     fn sub(self, o: Q) -> Q {
-        Q::new(self.n * o.d - o.n * self.d, self.d * o.d)
+        self.add(o.neg())
     }
     fn mul(self, o: Q) -> Q {
-        Q::new(self.n * o.n, self.d * o.d)
+        let g1 = gcd(self.n, o.d).max(1);
+        let g2 = gcd(o.n, self.d).max(1);
+        Q::new((self.n / g1) * (o.n / g2), (self.d / g2) * (o.d / g1))
     }
     fn div(self, o: Q) -> Q {
-        Q::new(self.n * o.d, self.d * o.n)
+        assert!(o.n != 0);
+        self.mul(if o.n < 0 { Q { n: -o.d, d: -o.n } } else { Q { n: o.d, d: o.n } })
     }
     fn neg(self) -> Q {
         Q { n: -self.n, d: self.d }
@@ -73,7 +89,8 @@ impl Q {
         self.n == 0
     }
     fn cmp(self, o: Q) -> Ordering {
-        (self.n * o.d).cmp(&(o.n * self.d))
+        let g = gcd(self.d, o.d);
+        (self.n * (o.d / g)).cmp(&(o.n * (self.d / g)))
     }
     fn le(self, o: Q) -> bool {
         self.cmp(o) != Ordering::Greater
@@ -528,16 +545,19 @@ fn judge(f: &StdForm, ftol: &BR, otol: &BR, basis: &[usize]) -> (String, Option<
 enum Truth {
     Infeasible,
     Unbounded,
-    Optimal(Q),
+    /// optimum, and the smallest sum of standard-form variables (x - l, row slacks, bound slacks)
+    /// over the optimal vertices; whether some feasible vertex is degenerate (more than n constraints tight)
+    Optimal(Q, Q, bool),
 }
 
 /// maximum of c.x over { rows: a.x <= b } given as (a, b) pairs, by enumerating the vertices
 /// (the region must be pointed); `None` when empty
-fn vertex_max(n: usize, cons: &[(Vec<Q>, Q)], c: &[Q]) -> Option<Q> {
+fn vertex_max(n: usize, cons: &[(Vec<Q>, Q)], c: &[Q], degenerate: &mut bool) -> Option<(Q, Q)> {
     let k = cons.len();
-    let mut best: Option<Q> = None;
+    // (objective, sum of all constraint slacks = sum of the standard-form variables) of the best vertex
+    let mut best: Option<(Q, Q)> = None;
     if n == 0 {
-        return if cons.iter().all(|(_, b)| Q::zero().le(*b)) { Some(Q::zero()) } else { None };
+        return if cons.iter().all(|(_, b)| Q::zero().le(*b)) { Some((Q::zero(), Q::zero())) } else { None };
     }
     let mut idx: Vec<usize> = (0..n).collect();
     if k < n {
@@ -547,21 +567,35 @@ fn vertex_max(n: usize, cons: &[(Vec<Q>, Q)], c: &[Q]) -> Option<Q> {
         let mat: Vec<Vec<Q>> = idx.iter().map(|&i| cons[i].0.clone()).collect();
         let rhs: Vec<Q> = idx.iter().map(|&i| cons[i].1).collect();
         if let Some(x) = solve_exact(mat, rhs) {
+            let mut slack_sum = Q::zero();
+            let mut tight = 0usize;
             let feas = cons.iter().all(|(a, b)| {
                 let mut s = Q::zero();
                 for j in 0..n {
                     s = s.add(a[j].mul(x[j]));
                 }
+                slack_sum = slack_sum.add(b.sub(s));
+                if s == *b {
+                    tight += 1;
+                }
                 s.le(*b)
             });
+            if feas && tight > n {
+                *degenerate = true;
+            }
             if feas {
                 let mut o = Q::zero();
                 for j in 0..n {
                     o = o.add(c[j].mul(x[j]));
                 }
-                if best.map_or(true, |bst| bst.lt(o)) {
-                    best = Some(o);
-                }
+                best = match best {
+                    None => Some((o, slack_sum)),
+                    Some((bo, bs)) => match bo.cmp(o) {
+                        Ordering::Less => Some((o, slack_sum)),
+                        Ordering::Equal => Some((bo, if slack_sum.lt(bs) { slack_sum } else { bs })),
+                        Ordering::Greater => Some((bo, bs)),
+                    },
+                };
             }
         }
         // next combination
@@ -588,19 +622,31 @@ fn unit_row(n: usize, j: usize, v: i128) -> Vec<Q> {
     r
 }
 
-fn truth(e: &Exact) -> Truth {
+/// a dyadic number with a 4-bit mantissa, >= v and < 1.14 v (v > 0 finite)
+fn dyadic_ceil(v: f64) -> Q {
+    let (m, e) = decompose(v).unwrap();
+    let bits = 128 - m.leading_zeros() as i32;
+    let shift = (bits - 4).max(0);
+    let top = (m >> shift) + 1;
+    let ex = e + shift;
+    if ex >= 0 { Q::int(top << ex) } else { Q::new(top, 1i128 << (-ex)) }
+}
+
+/// `relax` is added to every right-hand side and bound (0 = the LP itself)
+fn truth_relaxed(e: &Exact, relax: Q) -> Truth {
     let n = e.n;
     let mut cons: Vec<(Vec<Q>, Q)> = vec![];
     for i in 0..e.m {
-        cons.push((e.a[i].clone(), e.b[i]));
+        cons.push((e.a[i].clone(), e.b[i].add(relax)));
     }
     for j in 0..n {
-        cons.push((unit_row(n, j, -1), e.lo[j].neg()));
+        cons.push((unit_row(n, j, -1), e.lo[j].neg().add(relax)));
         if let Some(u) = e.up[j] {
-            cons.push((unit_row(n, j, 1), u));
+            cons.push((unit_row(n, j, 1), u.add(relax)));
         }
     }
-    let best = match vertex_max(n, &cons, &e.c) {
+    let mut degenerate = false;
+    let best = match vertex_max(n, &cons, &e.c, &mut degenerate) {
         None => return Truth::Infeasible,
         Some(v) => v,
     };
@@ -613,10 +659,15 @@ fn truth(e: &Exact) -> Truth {
         ray.push((unit_row(n, j, -1), Q::zero()));
         ray.push((unit_row(n, j, 1), if e.up[j].is_some() { Q::zero() } else { Q::int(1) }));
     }
-    match vertex_max(n, &ray, &e.c) {
-        Some(v) if Q::zero().lt(v) => Truth::Unbounded,
-        _ => Truth::Optimal(best),
+    let mut unused = false;
+    match vertex_max(n, &ray, &e.c, &mut unused) {
+        Some((v, _)) if Q::zero().lt(v) => Truth::Unbounded,
+        _ => Truth::Optimal(best.0, best.1, degenerate),
     }
+}
+
+fn truth(e: &Exact) -> Truth {
+    truth_relaxed(e, Q::zero())
 }
 
 // ---------------------------------------------------------------------------------------------
@@ -638,6 +689,9 @@ pub struct State {
     guard: bool,
     dual_guard: bool,
     truth: Option<Truth>,
+    /// the same LP with every row and bound relaxed by (a dyadic number just above) the feasibility
+    /// tolerance: the exact upper bound for the objective of any point that is feasible within it
+    relaxed: Option<Truth>,
     /// cold solution of the current problem / of the previous problem of the case
     cold: Option<Outcome>,
     prev: Option<LpSolution>,
@@ -679,6 +733,7 @@ pub fn do_prob(out: &mut Out, st: &mut State, raw: Raw, first: bool) {
     st.valid = v == "ok";
     st.exact = if st.valid { raw.exact() } else { None };
     st.truth = None;
+    st.relaxed = None;
     st.cold = None;
     st.cold_legal = false;
     let res = match (&st.exact, BR::from_f64(raw.ftol)) {
@@ -688,10 +743,11 @@ pub fn do_prob(out: &mut Out, st: &mut State, raw: Raw, first: bool) {
                 let neg = ftol.negate();
                 let guard = f.b.iter().all(|v| neg.le(&BR::from_q(*v)));
                 let dg = e.lo.iter().all(|l| l.is_zero()) && e.up.iter().all(|u| u.is_none());
-                (f.rows, f.cols, guard, dg, truth(e))
+                (f.rows, f.cols, guard, dg, truth(e), truth_relaxed(e, dyadic_ceil(raw.ftol)))
             });
             match r {
-                Some((rows, cols, guard, dg, t)) => {
+                Some((rows, cols, guard, dg, t, tr)) => {
+                    st.relaxed = Some(tr);
                     st.guard = guard;
                     st.dual_guard = dg;
                     st.truth = Some(t);
@@ -710,7 +766,7 @@ pub fn do_prob(out: &mut Out, st: &mut State, raw: Raw, first: bool) {
         match &st.truth {
             Some(Truth::Infeasible) => out.stat("truth:infeasible"),
             Some(Truth::Unbounded) => out.stat("truth:unbounded"),
-            Some(Truth::Optimal(_)) => out.stat("truth:optimal"),
+            Some(Truth::Optimal(..)) => out.stat("truth:optimal"),
             None => {}
         }
     }
@@ -842,9 +898,52 @@ pub fn do_sol(out: &mut Out, st: &mut State, path: &str) {
     //   lp-phase1      warm start from a cold answer whose terminal state was itself illegal
     //   lp-warm-xbasic any other warm start (DualSimplex::solve indexes the variable-indexed result
     //                  of Basis::solve_basic by basis position)
+    //   lp-pivot-abs   with smin / smax the smallest / largest magnitude among the non-zero constraint
+    //                  coefficients and 1 (the slack and bound-row entries of the standard form):
+    //                  smin <= feasibility_tol, or smin * (smin / smax) <= feasibility_tol (one
+    //                  elimination step can produce such a pivot).  The ratio test (basis.rs
+    //                  find_leaving_variable, `d_i > tolerance`) and the LU singularity test (lu.rs
+    //                  decompose, `pivot_value < tolerance`) use the ABSOLUTE feasibility tolerance as
+    //                  pivot threshold: rows are skipped / bases declared singular
+    //   lp-ratio-degenerate  (only for a primal-infeasible terminal state) some feasible vertex is
+    //                  degenerate: after a tie in the ratio test a basic variable can be rounded to
+    //                  -1e-16, and find_leaving_variable (`ratio >= 0.0`) then leaves it out
+    //   lp-otol-abs    (only for `Optimal` on an unbounded LP) some non-zero objective coefficient is
+    //                  <= optimality_tol in magnitude and is treated as zero
+    let tiny_coef = match &st.exact {
+        Some(e) => guarded(|| {
+            let ft = BR::from_f64(raw.ftol).unwrap();
+            let mut mags: Vec<Q> = e.a.iter().flatten().filter(|q| !q.is_zero()).map(|q| q.abs()).collect();
+            mags.push(Q::int(1));
+            match mags.iter().copied().reduce(|a, b| if a.lt(b) { a } else { b }) {
+                None => (false, false),
+                Some(amin) => {
+                    let amax = mags.iter().copied().reduce(|a, b| if a.lt(b) { b } else { a }).unwrap();
+                    (BR::from_q(amin).le(&ft), BR::from_q(amin.mul(amin).div(amax)).le(&ft))
+                }
+            }
+        })
+        .unwrap_or((false, false)),
+        None => (false, false),
+    };
+    let tiny_obj = match &st.exact {
+        Some(e) => {
+            let ot = BR::from_f64(raw.otol).unwrap();
+            e.c.iter().any(|q| !q.is_zero() && BR::from_q(q.abs()).le(&ot))
+        }
+        None => false,
+    };
     let tag_of = |st: &State, cold: bool| -> &'static str {
         if cold {
-            if !st.guard { "lp-phase1" } else { "-" }
+            if tiny_coef.0 {
+                "lp-pivot-abs"
+            } else if !st.guard {
+                "lp-phase1"
+            } else if tiny_coef.1 {
+                "lp-pivot-abs"
+            } else {
+                "-"
+            }
         } else if !st.dual_guard {
             "lp-warm-form"
         } else if !(if path == "warm-self" { st.cold_legal } else { st.prev_legal }) {
@@ -887,11 +986,27 @@ pub fn do_sol(out: &mut Out, st: &mut State, path: &str) {
     if let (Some(e), Some(t)) = (&st.exact, &st.truth) {
         let tag = tag_of(st, cold);
         let ftol = BR::from_f64(raw.ftol).unwrap();
+        let otol = BR::from_f64(raw.otol).unwrap();
         let objtol = ftol.mul(&BR::from_q(Q::int(1).add(sum_abs(&e.c))));
         let fail = |out: &mut Out, what: String| out.fail(line, "C09", tag, format!("{path}: {what}"));
+        let degenerate = matches!(t, Truth::Optimal(_, _, true));
+        let fail_primal = |out: &mut Out, what: String| {
+            out.fail(line, "C09", if cold && tag == "-" && degenerate { "lp-ratio-degenerate" } else { tag }, format!("{path}: {what}"))
+        };
+        let fail_otol = |out: &mut Out, what: String| {
+            out.fail(line, "C09", if cold && tiny_obj { "lp-otol-abs" } else { tag }, format!("{path}: {what}"))
+        };
         match &oc {
             Outcome::Ok(s) => match s.status {
                 LpStatus::Optimal => {
+                    // the terminal state itself (exact re-derivation from the returned basis)
+                    if let Some(v) = res.split_whitespace().nth(1) {
+                        if v == "illegal:primal" {
+                            fail_primal(out, format!("Optimal with a terminal state that is not legal ({v}); basis={:?}", s.basic_indices));
+                        } else if v.starts_with("illegal") {
+                            fail(out, format!("Optimal with a terminal state that is not legal ({v}); basis={:?}", s.basic_indices));
+                        }
+                    }
                     let xs: Option<Vec<BR>> = s.x.iter().map(|v| BR::from_f64(*v)).collect();
                     match (xs, BR::from_f64(s.objective)) {
                         (Some(xs), Some(o)) if xs.len() == e.n => {
@@ -920,18 +1035,35 @@ pub fn do_sol(out: &mut Out, st: &mut State, path: &str) {
                                 let what = match t {
                                     Truth::Infeasible => "the LP is infeasible".to_string(),
                                     Truth::Unbounded => "the LP is unbounded".to_string(),
-                                    Truth::Optimal(o) => format!("the LP has optimum {}", o.to_f64()),
+                                    Truth::Optimal(o, ..) => format!("the LP has optimum {}", o.to_f64()),
                                 };
-                                fail(out, format!("Optimal with an infeasible point ({v}); x={:?}; {what}", s.x));
+                                fail_primal(out, format!("Optimal with an infeasible point ({v}); x={:?}; {what}", s.x));
                             } else {
+                                // a point that is feasible within the tolerance cannot beat the optimum of
+                                // the LP relaxed by (slightly more than) the tolerance
+                                let upper = match &st.relaxed {
+                                    Some(Truth::Optimal(ro, ..)) => Some(BR::from_q(*ro).add(&objtol)),
+                                    _ => None,
+                                };
                                 match t {
-                                    Truth::Optimal(opt) => {
-                                        if !close(&o, &BR::from_q(*opt), &objtol) {
+                                    Truth::Optimal(opt, zsum, _) => {
+                                        // below the optimum by at most otol * (sum of the standard-form variables
+                                        // at an optimal vertex): the bound of theorem C09_legal_optimal_tol
+                                        let optb = BR::from_q(*opt);
+                                        let low = optb.sub(&objtol).sub(&otol.mul(&BR::from_q(*zsum)));
+                                        let up_ok = upper.as_ref().map_or(false, |u| o.le(u));
+                                        if !(up_ok && low.le(&o)) {
                                             fail(out, format!("Optimal with objective {} but the optimum is {}; x={:?}", s.objective, opt.to_f64(), s.x));
                                         }
                                     }
-                                    Truth::Unbounded => fail(out, format!("Optimal (objective {}) on an unbounded LP", s.objective)),
-                                    Truth::Infeasible => fail(out, "Optimal with a feasible-looking point on an infeasible LP (oracle inconsistency)".to_string()),
+                                    Truth::Unbounded => fail_otol(out, format!("Optimal (objective {}) on an unbounded LP", s.objective)),
+                                    Truth::Infeasible => {
+                                        // infeasible, but feasible within the tolerance
+                                        out.stat("optimal-within-tol-on-infeasible");
+                                        if !upper.as_ref().map_or(false, |u| o.le(u)) {
+                                            fail(out, format!("Optimal with objective {} above the optimum of the tolerance-relaxed LP; x={:?}", s.objective, s.x));
+                                        }
+                                    }
                                 }
                             }
                             let mut cx = BR::from_q(Q::zero());
@@ -972,7 +1104,11 @@ pub fn do_sol(out: &mut Out, st: &mut State, path: &str) {
             if let (Some(Outcome::Ok(cs)), Outcome::Ok(ws)) = (&st.cold, &oc) {
                 if cs.status == LpStatus::Optimal && ws.status == LpStatus::Optimal {
                     if let (Some(a), Some(bb)) = (BR::from_f64(cs.objective), BR::from_f64(ws.objective)) {
-                        if !close(&a, &bb, &objtol) {
+                        let wtol = match t {
+                            Truth::Optimal(_, zsum, _) => objtol.add(&otol.mul(&BR::from_q(*zsum))),
+                            _ => objtol.clone(),
+                        };
+                        if !close(&a, &bb, &wtol) {
                             fail(out, format!("warm objective {} != cold objective {}", ws.objective, cs.objective));
                         }
                     }
@@ -1082,8 +1218,8 @@ fn gen_exact(rng: &mut Rng, sh: &Shape, out: &mut Out) -> Exact {
     Exact { n, m, c, a, b: bv, lo, up }
 }
 
-fn raw_of(e: &Exact) -> Raw {
-    let (ftol, otol) = default_tols();
+fn raw_of(e: &Exact, tols: (f64, f64)) -> Raw {
+    let (ftol, otol) = tols;
     Raw {
         nv: e.n,
         nc: e.m,
@@ -1097,10 +1233,166 @@ fn raw_of(e: &Exact) -> Raw {
     }
 }
 
+/// every value survives the trip through f64 unchanged, and the exact oracle can handle the LP
+fn usable(e: &Exact, ftol: f64) -> bool {
+    let ok = |q: &Q| q.n.abs() < (1i128 << 53) && (q.d & (q.d - 1)) == 0 && f64_to_q(q.to_f64()) == Some(*q);
+    e.c.iter().all(ok)
+        && e.a.iter().all(|r| r.iter().all(ok))
+        && e.b.iter().all(ok)
+        && e.lo.iter().all(ok)
+        && e.up.iter().all(|u| u.as_ref().map_or(true, ok))
+        && guarded(|| {
+            let _ = primal_form(e);
+            let _ = truth_relaxed(e, dyadic_ceil(ftol));
+            truth(e)
+        })
+        .is_some()
+}
+
+fn pow2(k: i64) -> Q {
+    if k >= 0 { Q::int(1i128 << k) } else { Q::new(1, 1i128 << (-k)) }
+}
+
+/// a scale factor whose exponent is pushed towards the ends of [-10, 11]
+fn scale_exp(rng: &mut Rng) -> i64 {
+    match rng.below(6) {
+        0 => 0,
+        1 => rng.range(-10, -7),
+        2 => rng.range(8, 11),
+        _ => rng.range(-10, 11),
+    }
+}
+
+/// a well-scaled base LP whose objective is a positive combination of row normals, so that those
+/// rows bind at the optimum
+fn base_binding(rng: &mut Rng, n: usize, m: usize, out: &mut Out) -> Exact {
+    let mut e = gen_exact(rng, &Shape { n, m }, out);
+    if m > 0 && rng.chance(3, 4) {
+        let i = rng.below(m as u64) as usize;
+        let k = rng.below(m as u64) as usize;
+        for j in 0..n {
+            e.c[j] = e.a[i][j].add(if k != i && rng.chance(1, 2) { e.a[k][j] } else { Q::zero() });
+        }
+        out.stat("objective:row-normal");
+    }
+    e
+}
+
+/// stream 1: BADLY SCALED data.  A well-scaled LP in y is rewritten in x = y / colscale, rows are
+/// multiplied by row scales: a_ij = a0_ij * r_i * s_j, b_i = b0_i * r_i, c_j = c0_j * s_j,
+/// bounds / s_j.  Scales are powers of two (columns) and powers of two times 1, 10, 1000 (rows), so
+/// one row / one column holds magnitudes many orders apart and every value is exact in f64.
+fn gen_scaled(rng: &mut Rng, out: &mut Out) -> Option<Exact> {
+    for _ in 0..8 {
+        let n = rng.range(2, 4) as usize;
+        let m = rng.range(1, 4) as usize;
+        let mut e = base_binding(rng, n, m, out);
+        let cs: Vec<Q> = (0..n).map(|_| pow2(scale_exp(rng))).collect();
+        let rs: Vec<Q> = (0..m)
+            .map(|_| pow2(scale_exp(rng)).mul(Q::int(*rng.pick(&[1i128, 1, 1, 10, 1000]))))
+            .collect();
+        for i in 0..m {
+            for j in 0..n {
+                e.a[i][j] = e.a[i][j].mul(rs[i]).mul(cs[j]);
+            }
+            e.b[i] = e.b[i].mul(rs[i]);
+        }
+        for j in 0..n {
+            e.c[j] = e.c[j].mul(cs[j]);
+            e.lo[j] = e.lo[j].div(cs[j]);
+            e.up[j] = e.up[j].map(|u| u.div(cs[j]));
+        }
+        if usable(&e, default_tols().0) {
+            // spread of the non-zero magnitudes, in powers of two
+            let mags: Vec<f64> = e.a.iter().flatten().filter(|q| !q.is_zero()).map(|q| q.abs().to_f64().log2()).collect();
+            if !mags.is_empty() {
+                let spread = mags.iter().cloned().fold(f64::MIN, f64::max) - mags.iter().cloned().fold(f64::MAX, f64::min);
+                out.stat(&format!("scaled:spread-2^{}", ((spread / 8.0) as i64) * 8));
+            }
+            return Some(e);
+        }
+        out.stat("scaled:rejected");
+    }
+    None
+}
+
+const TOLS: [f64; 4] = [1e-9, 1e-6, 1e-4, 1e-2];
+
+/// a dyadic value (small odd number times a power of two) strictly between the two tolerances
+/// (next to the tolerance when they are equal)
+fn between(rng: &mut Rng, t1: f64, t2: f64) -> Q {
+    let (lo, hi) = if t1 < t2 { (t1, t2) } else { (t2, t1) };
+    let (elo, ehi) = (lo.log2().ceil() as i64 + 1, hi.log2().floor() as i64 - 1);
+    let k = if elo >= ehi { ehi } else { rng.range(elo, ehi) };
+    let m = *rng.pick(&[1i128, 1, 3, 5]);
+    // keep m * 2^k below the larger tolerance
+    pow2(k - if m > 1 { 3 } else { 0 }).mul(Q::int(m))
+}
+
+/// stream 2: NON-DEFAULT LpConfig.  feasibility_tol and optimality_tol vary independently over
+/// {1e-9, 1e-6, 1e-4, 1e-2}; one or two rows carry coefficients whose magnitude lies between the two
+/// tolerances and bind at the optimum (positive objective on their variables, upper bounds of 1000,
+/// so a skipped row shows as a large violation)
+fn gen_config(rng: &mut Rng, out: &mut Out) -> Option<(Exact, (f64, f64))> {
+    for _ in 0..8 {
+        let ftol = *rng.pick(&TOLS);
+        let otol = *rng.pick(&TOLS);
+        let n = rng.range(2, 4) as usize;
+        let m = rng.range(1, 4) as usize;
+        let mut e = base_binding(rng, n, m, out);
+        // wide boxes
+        for j in 0..n {
+            if rng.chance(2, 3) {
+                e.up[j] = Some(e.lo[j].add(Q::int(*rng.pick(&[1000i128, 1000, 500, 64]))));
+            }
+        }
+        let kind = rng.below(4);
+        let tiny_rows = if kind == 3 { 0 } else { 1 + rng.below(2) as usize };
+        for t in 0..tiny_rows.min(m) {
+            let i = if t == 0 { rng.below(m as u64) as usize } else { (rng.below(m as u64) as usize + 1) % m };
+            let mut any = false;
+            // a point well inside the box at which the row is to bind
+            let mut at = Q::zero();
+            for j in 0..n {
+                let whole_row = kind == 0 || kind == 2;
+                if whole_row || rng.chance(1, 2) {
+                    let v = if rng.chance(1, 4) && any { Q::zero() } else { between(rng, ftol, otol) };
+                    e.a[i][j] = v;
+                    any = any || !v.is_zero();
+                }
+                if !e.a[i][j].is_zero() && e.a[i][j].n > 0 && e.c[j].le(Q::zero()) {
+                    e.c[j] = Q::int(rng.range(1, 4) as i128);
+                }
+                let w = e.up[j].map_or(Q::int(8), |u| u.sub(e.lo[j]));
+                let xj = e.lo[j].add(w.mul(Q::new(rng.range(1, 6) as i128, 8)));
+                at = at.add(e.a[i][j].mul(xj));
+            }
+            e.b[i] = at;
+        }
+        if kind >= 2 {
+            // objective coefficients between the tolerances
+            for j in 0..n {
+                if rng.chance(1, 2) {
+                    e.c[j] = between(rng, ftol, otol);
+                }
+            }
+        }
+        if usable(&e, ftol) {
+            out.stat(&format!("config:ftol={ftol:e}"));
+            out.stat(&format!("config:otol={otol:e}"));
+            out.stat(&format!("config:kind={kind}"));
+            out.stat(if ftol < otol { "config:ftol<otol" } else if ftol > otol { "config:ftol>otol" } else { "config:ftol=otol" });
+            return Some((e, (ftol, otol)));
+        }
+        out.stat("config:rejected");
+    }
+    None
+}
+
 fn malformed(rng: &mut Rng, out: &mut Out) -> Raw {
     let sh = Shape { n: rng.range(1, 3) as usize, m: rng.range(0, 3) as usize };
     let e = gen_exact(rng, &sh, out);
-    let mut r = raw_of(&e);
+    let mut r = raw_of(&e, default_tols());
     let specials = [f64::NAN, f64::INFINITY, f64::NEG_INFINITY, -0.0];
     let kind = rng.below(12);
     out.stat(&format!("malformed:{kind}"));
@@ -1157,9 +1449,9 @@ fn malformed(rng: &mut Rng, out: &mut Out) -> Raw {
     r
 }
 
-fn one_case(out: &mut Out, st: &mut State, id: &str, e: &Exact, rng: Option<&mut Rng>) {
+fn one_case(out: &mut Out, st: &mut State, id: &str, e: &Exact, tols: (f64, f64), relative_rhs: bool, rng: Option<&mut Rng>) {
     out.case(id);
-    do_prob(out, st, raw_of(e), true);
+    do_prob(out, st, raw_of(e, tols), true);
     do_sol(out, st, "cold");
     do_sol(out, st, "warm-self");
     if let Some(rng) = rng {
@@ -1201,11 +1493,18 @@ fn one_case(out: &mut Out, st: &mut State, id: &str, e: &Exact, rng: Option<&mut
             let mut e2 = e.clone();
             for i in 0..e2.m {
                 if rng.chance(1, 2) {
-                    e2.b[i] = e2.b[i].sub(Q::new(rng.range(0, 4) as i128, 2));
+                    let k = Q::new(rng.range(0, 4) as i128, 2);
+                    // badly scaled rows: a change relative to the row's own magnitude
+                    let d = if relative_rhs { e2.b[i].abs().mul(k).mul(Q::new(1, 4)) } else { k };
+                    e2.b[i] = e2.b[i].sub(d);
                 }
             }
+            if relative_rhs && !usable(&e2, tols.0) {
+                out.stat("warm-prev-rejected");
+                return;
+            }
             out.stat("warm-prev-cases");
-            do_prob(out, st, raw_of(&e2), false);
+            do_prob(out, st, raw_of(&e2, tols), false);
             do_sol(out, st, "cold");
             do_sol(out, st, "warm-prev");
         }
@@ -1233,9 +1532,24 @@ pub fn suite(out: &mut Out, seed: u64, count: u64, args: &[String]) {
             do_sol(out, &mut st, "cold");
             continue;
         }
+        let stream = rng.below(100);
+        if stream < 17 {
+            if let Some(e) = gen_scaled(&mut rng, out) {
+                out.stat("stream:scaled");
+                one_case(out, &mut st, &format!("lp-sc-{k}"), &e, default_tols(), true, Some(&mut rng));
+                continue;
+            }
+        } else if stream < 34 {
+            if let Some((e, tols)) = gen_config(&mut rng, out) {
+                out.stat("stream:config");
+                one_case(out, &mut st, &format!("lp-cf-{k}"), &e, tols, true, Some(&mut rng));
+                continue;
+            }
+        }
+        out.stat("stream:default");
         let sh = Shape { n: rng.range(1, 4) as usize, m: rng.range(0, 5) as usize };
         let e = gen_exact(&mut rng, &sh, out);
-        one_case(out, &mut st, &format!("lp-{k}"), &e, Some(&mut rng));
+        one_case(out, &mut st, &format!("lp-{k}"), &e, default_tols(), false, Some(&mut rng));
     }
 }
 
@@ -1280,7 +1594,7 @@ fn exhaustive(out: &mut Out, st: &mut State, universe: usize) {
                 }
                 let e = Exact { n, m, c, a, b: bv, lo, up };
                 id += 1;
-                one_case(out, st, &format!("lp-exh-{id}"), &e, None);
+                one_case(out, st, &format!("lp-exh-{id}"), &e, default_tols(), false, None);
             }
         }
     }
